@@ -521,6 +521,9 @@ Section Proofs.
   Lemma max2_unknown_tuple ts : max2 gT ts (repeat (TUnknown false) (length ts)) = fold_right (fun t acc => Nat.max (passes t) acc) 0 ts.
   Proof. induction ts as [|ty r IH]; cbn [length repeat max2 fold_right]; [reflexivity|]. unfold gT at 1. rewrite rem_unknown, IH. reflexivity. Qed.
 
+  Lemma arity_adjust_same fs : arity_adjust fs (length fs) = fs.
+  Proof. induction fs as [|f r IH]; [reflexivity|]. cbn [length arity_adjust]. rewrite IH. reflexivity. Qed.
+
   Lemma pass_tuple ts : Forall PassOK ts -> PassOK (TyTuple ts).
   Proof.
     intros HF n dots t Hok Ha. rewrite ft_pass_eq. cbn [FromType_proofs.ok] in Hok. apply andb_true_iff in Hok as [Hd Hok].
@@ -529,7 +532,7 @@ Section Proofs.
     - destruct (tuple_pass_ok dots ts _ HF Hok (all2_unknown_tuple ts)) as (trs' & E & Hall' & Hr). rewrite E. cbn [bind].
       eexists. split; [reflexivity|]. split; [exists trs'; split; [reflexivity|exact Hall']|].
       rewrite max2_unknown_tuple in Hr. cbn [rem passes]. change (max2 (fun ty' tr => rem ty' tr) ts trs') with (max2 gT ts trs'). lia.
-    - destruct (tuple_pass_ok dots ts trs HF Hok Hall) as (trs' & E & Hall' & Hr). rewrite E. cbn [bind].
+    - rewrite (all2_length _ _ _ Hall), arity_adjust_same. destruct (tuple_pass_ok dots ts trs HF Hok Hall) as (trs' & E & Hall' & Hr). rewrite E. cbn [bind].
       eexists. split; [reflexivity|]. split; [exists trs'; split; [reflexivity|exact Hall']|].
       cbn [rem]. change (max2 (fun ty' tr => rem ty' tr) ts) with (max2 gT ts). exact Hr.
   Qed.
